@@ -570,7 +570,7 @@ theorem snap_inv (cfg : Cfg) (n : Node) (h : Inv cfg n) : (snap n).2 = none ∧ 
 
 /-! ### pruning -/
 
-theorem prune_dbinv (cfg : Cfg) (hW : 1 ≤ cfg.W) (n : Node) (k : Nat) (h : DBInv cfg n) : DBInv cfg (prune cfg n k) := by
+theorem prune_dbinv (cfg : Cfg) (_hW : 1 ≤ cfg.W) (n : Node) (k : Nat) (h : DBInv cfg n) : DBInv cfg (prune cfg n k) := by
   unfold prune
   split
   · exact h
